@@ -62,6 +62,8 @@ def reserved_words_of_the_spec():
 
 def main(tier, replay=None):
     t0 = time.time()
+    if replay:
+        return c01.do_replay(PID, replay, c01.work_prefix)
     # The reference is the single source of the reserved words.  Eval.tla's Reserved must be that list minus the words
     # that never reach binding (true, false, NULL do not lex as names - NULL is listed in the spec all the same -, `env`
     # is the parser's), plus `include`, which the list forgets.
